@@ -171,8 +171,13 @@ func (m *MemFile) write(kind Kind, p []byte, off int64) (int, error) {
 	return n, err
 }
 
-func (m *MemFile) WriteAt(p []byte, off int64) (int, error) { return m.write(KWriteAt, p, off) }
-func (m *MemFile) Write(p []byte) (int, error)              { return m.write(KWrite, p, 0) }
+func (m *MemFile) WriteAt(p []byte, off int64) (int, error) {
+	if off < 0 {
+		return 0, errors.New("memfile: writeat: negative offset") // as *os.File does
+	}
+	return m.write(KWriteAt, p, off)
+}
+func (m *MemFile) Write(p []byte) (int, error) { return m.write(KWrite, p, 0) }
 
 func (m *MemFile) Truncate(size int64) error {
 	m.mu.Lock()
